@@ -16,10 +16,16 @@
     of the empty crew and kept by every step).  [hist_step] is the
     specification automaton written from the property text.
 
+    [all_serialisable ch]: json.Marshal succeeds for every end state of the
+    batch [ch] (Model/MCrew.v: no value inside the bindings is the marker
+    that stands for a float64 NaN).
+
     Partial (named): which Go regions are atomic is read off the lock
     structure by hand, and bolt's all-or-nothing transaction is assumed;
     both are what the concurrent correspondence run (8 clients, a fault
-    injector, -race, linearisation search) tests. *)
+    injector, -race, linearisation search) tests.  That a batch of any size
+    goes into one transaction is what the volume histories of the sequential
+    run test (130 / 200 machines, one end state that cannot be serialised). *)
 From Sheens Require Import Spec.MCrewSpec Proofs.ConcFacts Proofs.MCrewFacts.
 
 (** in every state reachable by any interleaving of any clients under any
@@ -63,6 +69,35 @@ Theorem C16_advance_needs_write :
         sto (fst (svc_step spec_ok wk services q s)) = mem (fst (svc_step spec_ok wk services q s))).
 Proof. exact advance_needs_write. Qed.
 Print Assumptions C16_advance_needs_write.
+
+(** a batch is written entirely or not at all, whatever its size: when one
+    end state of the batch cannot be serialised ([all_serialisable] false: a
+    machine's bindings after the walk hold a value encoding/json refuses),
+    Process changes neither memory nor the store - for any of the walked
+    machines - although the store may be up, and reports the walks together
+    with the error.  [do_process_to] is Process once the recipients are chosen
+    ([svc_step (RProcess msg)] = [do_process_to (recipients …)]); [specs_ok]
+    = GetSpec succeeded for every recipient. *)
+Theorem C16_batch_all_or_nothing :
+  forall spec_ok wk (mids : list string) msg s,
+    specs_ok spec_ok (mem s) mids = true ->
+    all_serialisable (changes (walks wk (mem s) mids msg)) = false ->
+    do_process_to spec_ok wk mids msg s = (s, PProcessed true (walks wk (mem s) mids msg)).
+Proof. exact batch_unserialisable_is_noop. Qed.
+Print Assumptions C16_batch_all_or_nothing.
+
+(** ... and conversely: a Process call that moved some machine and reports no
+    error found the store up, every end state serialisable, and memory and
+    store both took the whole batch *)
+Theorem C16_batch_written_whole :
+  forall spec_ok wk (mids : list string) msg s s' ws,
+    do_process_to spec_ok wk mids msg s = (s', PProcessed false ws) ->
+    changes ws <> [] ->
+    up s = true /\ all_serialisable (changes ws) = true
+    /\ mem s' = set_states (changes ws) (mem s)
+    /\ sto s' = write_states (mem s) (changes ws) (sto s).
+Proof. exact batch_written_whole. Qed.
+Print Assumptions C16_batch_written_whole.
 
 (** every response is the response of the sequential crew in the state the
     request found: in particular every walk Process reports starts from the
@@ -151,4 +186,47 @@ Example C16_example_failed_write :
   = PProcessed true [("m0", mk_wobs ("start", []) (Some ("start", [("log", JArr [JStr "a"])])) [])]
   /\ must_not_change (snd (svc_step_m (RProcess (leaf "a" "m0")) s)) = true
   /\ up s = false.
+Proof. vm_compute. repeat split; reflexivity. Qed.
+
+
+(** [C16_batch_all_or_nothing] is not vacuous: a crew of 70 recorder machines
+    (m000 … m069, alternately rec and flip) and one machine of specification
+    "nan", the store up; a broadcast whose "poison" is a NaN moves all 71,
+    the end state of the nan machine cannot be serialised, and nothing
+    changes.  Without the nan machine the same broadcast moves all 70. *)
+Definition ex_digit (n : nat) : string :=
+  String (Ascii.ascii_of_nat (48 + n)) EmptyString.
+Definition ex_id (n : nat) : string :=
+  ("m" ++ ex_digit (Nat.div n 100) ++ ex_digit (Nat.modulo (Nat.div n 10) 10) ++ ex_digit (Nat.modulo n 10))%string.
+Definition ex_big_crew : mmap :=
+  map (fun n => (ex_id n, mk_mrec (if Nat.even n then "rec" else "flip") "start" [])) (seq 0 70).
+Definition ex_poison : json :=
+  JObj [("fwd", JArr []); ("id", JStr "a"); ("poison", nan_marker)].
+Definition ex_big_svc (with_nan : bool) : svc :=
+  let crew := if with_nan then ex_big_crew ++ [("n", mk_mrec "nan" "start" [])] else ex_big_crew in
+  mk_svc crew crew true.
+
+Example C16_example_big_batch :
+  let s := ex_big_svc true in
+  let mids := map fst (mem s) in
+  (* the hypotheses of the theorem *)
+  msorted (mem s) /\ up s = true
+  /\ specs_ok spec_ok_m (mem s) mids = true
+  /\ List.length (changes (walks wk_m (mem s) mids ex_poison)) = 71
+  /\ all_serialisable (changes (walks wk_m (mem s) mids ex_poison)) = false
+  (* the one unserialisable end state *)
+  /\ filter (fun c : string * (string * bindings) => negb (bs_serialisable (snd (snd c))))
+            (changes (walks wk_m (mem s) mids ex_poison))
+     = [("n", ("start", [("?fwd", JArr []); ("?id", JStr "a"); ("?p", nan_marker)]))]
+  (* the service's own step: nothing changed, failure reported *)
+  /\ fst (svc_step_m (RProcess ex_poison) s) = s
+  /\ must_not_change (snd (svc_step_m (RProcess ex_poison) s)) = true
+  (* without the nan machine the whole batch is written *)
+  /\ (let s0 := ex_big_svc false in
+      let s1 := fst (svc_step_m (RProcess ex_poison) s0) in
+      must_not_change (snd (svc_step_m (RProcess ex_poison) s0)) = false
+      /\ mem s1 = sto s1
+      /\ forallb (fun e : string * mrec =>
+                    bindings_eqb (r_bs (snd e)) [("log", JArr [JStr "a"])]) (mem s1) = true
+      /\ List.length (mem s1) = 70).
 Proof. vm_compute. repeat split; reflexivity. Qed.
